@@ -174,7 +174,6 @@ func VP_C93() {
 	vpAssert(bc.At(width-1, 0) == scheme.Foreground, "termination bar")
 }
 
-
 // C15 / C16: purity (deterministic, history-free, no package-level writes)
 func VP_PURE() {
 	n := vpConfig("n")
@@ -199,7 +198,6 @@ func VP_PURE() {
 	vpCover("reached", true)
 }
 
-
 // C15: the check character search ranges over a map; its result must not depend on the iteration order
 func VP_C93_maporder() {
 	n := vpConfig("n")
@@ -210,10 +208,12 @@ func VP_C93_maporder() {
 	for _, w := range []int{20, 15} {
 		vpMapOrder(false)
 		a := getChecksum(content, w)
-		vpMapOrder(true)
-		b := getChecksum(content, w)
-		vpMapOrder(false)
-		vpAssert(a == b, "the check character does not depend on the order in which the table is iterated")
+		for r := 0; r < vpNativeRepeat(300); r++ {
+			vpMapOrder(true)
+			b := getChecksum(content, w)
+			vpMapOrder(false)
+			vpAssert(a == b, "the check character does not depend on the order in which the table is iterated")
+		}
 	}
 	vpCover("reached", true)
 }
